@@ -106,6 +106,10 @@ def gen_case(rng, tier):
     nmax = 7 if tier == "quick" else 9
     kinds = gen.KINDS if rng.random() < 0.7 else ("bond", "hyper", "out1", "outk", "all", "batch", "dangling")
     net = relabel(gen.rand_net(rng, nmin=2, nmax=nmax, max_inds=9, dims=(1, 2, 2, 3, 4), kinds=kinds))
+    if rng.random() < 0.2:
+        # exact integers of any magnitude: dimensions that take the totals beyond 2**63
+        for ix in list(net.sizes):
+            net.sizes[ix] = rng.choice([1, 3, 46349, 999983, 1000003, (1 << 20) + 7, (1 << 31) - 1])
     tree = gen.rand_tree(rng, len(net.inputs))
     return {"net": net.json(), "tree": tree, "seed": rng.randrange(1 << 30),
             "opt": rng.random() < (0.25 if tier == "quick" else 0.15)}
